@@ -423,6 +423,7 @@ pub fn scaled_docs(quick: bool) -> Vec<(String, Vec<u8>)> {
             ("text", format!("<p>{x}</p>y")),
             ("text with a non-ASCII character at the end", format!("<p>{x}\u{e9}z</p>")),
             ("non-ASCII text", format!("<p>{}</p>", "\u{e9}".repeat(n / 2 + 1))),
+            ("non-ASCII character followed by an ASCII run", format!("<p>ab\u{e9}{x}</p>")),
             ("comment", format!("<!--{x}-->t")),
             ("comment of dashes", format!("a<!--{}>b-->c", "-".repeat(n))),
             ("attribute value", format!("<a b=\"{x}\" c='{x}' d={x}>t</a>")),
@@ -471,6 +472,8 @@ pub fn scaled_scheds(len: usize, quick: bool) -> Vec<Sched> {
     for back in 1..=4 {
         marks.push(len.saturating_sub(back));
     }
+    // (the first bytes of the document: every template starts its interesting part there)
+    marks.extend(1..=8);
     marks.sort();
     marks.dedup();
     marks.retain(|&m| m >= 1 && m < len);
